@@ -330,6 +330,11 @@ impl HllSketch {
                         )));
                     }
 
+                    if lg_arr > lg_config_k {
+                        return Err(Error::deserial(format!(
+                            "LIST mode lg_arr must not exceed lg_k {lg_config_k}, got {lg_arr}",
+                        )));
+                    }
                     let lg_arr = lg_arr as usize;
                     let coupon_count = state as usize;
                     let list = List::deserialize(cursor, lg_arr, coupon_count, empty, compact)?;
@@ -343,6 +348,11 @@ impl HllSketch {
                         )));
                     }
 
+                    if lg_arr > lg_config_k {
+                        return Err(Error::deserial(format!(
+                            "SET mode lg_arr must not exceed lg_k {lg_config_k}, got {lg_arr}",
+                        )));
+                    }
                     let lg_arr = lg_arr as usize;
                     let set = HashSet::deserialize(cursor, lg_arr, compact)?;
                     Mode::Set { set, hll_type }
